@@ -656,6 +656,15 @@ def validate_first(ctx):
     ok = bool(raises) and all(isinstance(q.in_loop(r), ast.For) and norm(q.in_loop(r).iter) == v.params[1]
                               and q.guards_imply(q.guards(r), f'{norm(q.in_loop(r).target)} not in {v.params[2]}') for r in raises)
     ctx.ob(v, 'raise ValueError for every key not in allowed', ok, 'the validator must reject unknown keys')
+    # every call walks the whole dict: no way out before/around the loop (e.g. a memo keyed by the
+    # argument names only answers for a different allow-list)
+    vg = ctx.cfg(v)
+    loops = [n for n in vg.nodes if n.kind == 'for' and norm(n.ast) == v.params[1]]
+    early = [n for n in own_nodes(v.node) if isinstance(n, (ast.Return, ast.Break)) ]
+    ctx.ob(v, 'every call checks every key (no early return/break, the loop is on every path)',
+           bool(loops) and not early and vg.must_pass([vg.entry], loops, [vg.exit], vg.NORMAL),
+           'a validation that can be skipped lets an argument outside this entry point\'s allow-list through to the request')
+
 
 
 @rule('C15.c', ['C15'], floor=6)
